@@ -170,6 +170,9 @@ class ClientAuthenticator:
                 self.sendAuthMessage(
                     b'ERROR ' + str(e).encode('unicode-escape'))
 
+        else:
+            self.sendAuthMessage(b'ERROR "Unexpected DATA"')
+
     def _auth_ERROR(self, line):
         log.msg(
             'Authentication mechanism failed: '
